@@ -491,10 +491,66 @@ def extract() -> dict:
     return {
         "sites": sites, "sigChecks": checks, "fieldChecks": field_checks, "exempt": exempt, "hcls": hcls, "isa": isa,
         "read": rr, "setStatus": _set_http_status_shape(_func(resp, "_set_http_status")),
+        "state": _cross_call_state(wire, "vgi_rpc.rpc._wire"),
         "validateParams": _same(_norm(_func(wire, "_validate_params")), _VALIDATE_PARAMS),
         "deserializeParams": _same(_norm(_func(wire, "_deserialize_params")), _DESERIALIZE_PARAMS),
         "deserializeValue": _same(_norm(_func(wire, "_deserialize_value")), _DESERIALIZE_VALUE),
     }
+
+
+_STATE_FUNCS = ("_validate_params", "_validate_call_signature", "_deserialize_params", "_deserialize_value")
+_MEMO_DECORATORS = ("lru_cache", "cache", "cached_property", "memoize")
+
+
+def _cross_call_state(tree: ast.Module, modname: str) -> list[str]:
+    """Module-level state the validation functions (and the same-module helpers they call, transitively) can carry from one
+    call to the next: a mutable module-level container they read or write, a `global` / `nonlocal` declaration, a memoising
+    decorator, a mutable default argument.  `ContextVar`s are per-request and allowed (the request schema is modelled).
+    Returns the offenders (`function:name`); the model is a pure function of (declaration, request), so this must be []."""
+    import contextvars
+    import importlib
+    import types
+
+    mod = importlib.import_module(modname)
+    if not str(Path(mod.__file__ or "").resolve()).startswith(str(REPO.resolve())):
+        raise Unrecognised(f"{modname} was imported from {mod.__file__}, not from {REPO}: run with PYTHONPATH=$VERIF_REPO")
+    funcs = {n.name: n for n in tree.body if isinstance(n, ast.FunctionDef)}
+    offenders: list[str] = []
+    seen: set[str] = set()
+    todo = [f for f in _STATE_FUNCS]
+    while todo:
+        fname = todo.pop()
+        if fname in seen or fname not in funcs:
+            continue
+        seen.add(fname)
+        fn = funcs[fname]
+        for d in fn.decorator_list:
+            if any(k in ast.unparse(d) for k in _MEMO_DECORATORS):
+                offenders.append(f"{fname}:@{ast.unparse(d)}")
+        for dflt in fn.args.defaults + [k for k in fn.args.kw_defaults if k is not None]:
+            if isinstance(dflt, (ast.Dict, ast.List, ast.Set, ast.Call)):
+                offenders.append(f"{fname}:mutable-default")
+        local = {a.arg for a in fn.args.args + fn.args.kwonlyargs}
+        for n in ast.walk(fn):
+            if isinstance(n, (ast.Global, ast.Nonlocal)):
+                offenders.append(f"{fname}:{'global' if isinstance(n, ast.Global) else 'nonlocal'} {','.join(n.names)}")
+            if isinstance(n, ast.Name) and isinstance(n.ctx, ast.Store):
+                local.add(n.id)
+        for n in ast.walk(fn):
+            if not (isinstance(n, ast.Name) and isinstance(n.ctx, ast.Load)) or n.id in local:
+                continue
+            if not hasattr(mod, n.id):
+                continue
+            v = getattr(mod, n.id)
+            if isinstance(v, contextvars.ContextVar):
+                continue
+            if isinstance(v, (dict, list, set, bytearray)) or type(v).__name__ in ("defaultdict", "OrderedDict", "deque", "WeakValueDictionary", "WeakKeyDictionary"):
+                offenders.append(f"{fname}:{n.id}")
+            elif isinstance(v, types.FunctionType) and v.__module__ == modname:
+                todo.append(n.id)
+            elif hasattr(v, "cache_info") and getattr(v, "__module__", None) == modname:
+                offenders.append(f"{fname}:{n.id}(cached)")
+    return sorted(set(offenders))
 
 
 def _lean_handlers(lvl: list[tuple[list[str], str]]) -> str:
@@ -605,6 +661,11 @@ def readValidationWrap : List HCls := [{', '.join('.' + n for n in x['read']['va
 def validateParamsRecognised : Bool := {b(x['validateParams'])}
 def deserializeParamsRecognised : Bool := {b(x['deserializeParams'])}
 def deserializeValueRecognised : Bool := {b(x['deserializeValue'])}
+
+/-- module-level / cross-call state reachable from `_validate_params`, `_validate_call_signature`, `_deserialize_params`,
+`_deserialize_value` and the same-module helpers they call (mutable module-level containers, `global`s, memoising
+decorators, mutable defaults; `ContextVar`s excepted).  The model is a pure function of (declaration, request): must be `[]`. -/
+def validationState : List String := [{', '.join('"' + o.replace('"', "'") + '"' for o in x['state'])}]
 
 end VgiVerif.Gen.Validate
 """
